@@ -926,8 +926,9 @@ class XsdElement(XsdComponent, ParticleMixin,
                 fields = tuple(
                     s.get_value(element_node, context.namespaces) for s in selectors
                 )
-            except (XMLSchemaValueError, XMLSchemaTypeError, ValueError) as err:
-                # ValueError: errors of the XPath processor on malformed instance data
+            except (XMLSchemaValueError, XMLSchemaTypeError, ValueError, ArithmeticError) as err:
+                # ValueError/ArithmeticError: errors of the XPath processor on malformed
+                # or out of range instance data
                 context.validation_error(validation, self, err, obj)
             else:
                 if any(x is not None for x in fields) or nilled:
